@@ -145,3 +145,36 @@ package hdrhist
 //@   requires geom(h) && inrange(h, v)
 //@   ensures v <= result
 //@   ensures result == lowestEquivalentValue(h, v) + sizeOfEquivalentValueRange(h, v) - 1
+
+// Index arithmetic: for every valid (bucket, sub-bucket) pair the counts index
+// is within len(counts); the value of an index pair maps back to the same
+// pair and the same counts index (so Merge / Import re-record each bucket into
+// the bucket it came from).
+//@ pred validBS(h *Histogram, b int32, s int32) = 0 <= b && b < h.bucketCount && s < h.subBucketCount && (b == 0 ? 0 <= s : h.subBucketHalfCount <= s)
+
+//@ func (*Histogram).countsIndex
+//@   props C19
+//@   mode bv
+//@   pure
+//@   option cases h.subBucketHalfCountMagnitude == 4 | h.subBucketHalfCountMagnitude == 7 | h.subBucketHalfCountMagnitude == 10 | h.subBucketHalfCountMagnitude == 14 | h.subBucketHalfCountMagnitude == 17
+//@   requires geom(h) && validBS(h, bucketIdx, subBucketIdx)
+//@   ensures 0 <= result && result < h.countsLen
+
+//@ func (*Histogram).getCountAtIndex
+//@   props C19
+//@   mode bv
+//@   option cases h.subBucketHalfCountMagnitude == 4 | h.subBucketHalfCountMagnitude == 7 | h.subBucketHalfCountMagnitude == 10 | h.subBucketHalfCountMagnitude == 14 | h.subBucketHalfCountMagnitude == 17
+//@   requires geom(h) && validBS(h, bucketIdx, subBucketIdx)
+//@   ensures result == h.counts[i64(countsIndex(h, bucketIdx, subBucketIdx))]
+
+//@ func (*Histogram).valueFromIndex
+//@   props C19
+//@   mode bv
+//@   pure
+//@   option cases h.subBucketHalfCountMagnitude == 4 | h.subBucketHalfCountMagnitude == 7 | h.subBucketHalfCountMagnitude == 10 | h.subBucketHalfCountMagnitude == 14 | h.subBucketHalfCountMagnitude == 17
+//@   requires geom(h) && validBS(h, bucketIdx, subBucketIdx)
+//@   ensures result >= 0 && result == (i64(subBucketIdx) << (i64(bucketIdx) + h.unitMagnitude))
+// (the two clauses below are exactly getBucketIndex's and getSubBucketIdx's
+// characterisation of the pair for this value: the value maps back to it)
+//@   ensures bucket: result < (i64(h.subBucketCount) << (h.unitMagnitude + i64(bucketIdx))) && (bucketIdx == 0 || result >= (i64(h.subBucketCount) << (h.unitMagnitude + i64(bucketIdx) - 1)))
+//@   ensures sub: (result >> (h.unitMagnitude + i64(bucketIdx))) == i64(subBucketIdx)
